@@ -30,6 +30,7 @@ type c03bStep struct {
 type c03bCase struct {
 	Enabled []string   `json:"enabled"` // schemes enabled on the builder
 	Steps   []c03bStep `json:"steps"`   // authenticating envelopes sent one after the other (the first answered one ends the handshake)
+	Other   []string   `json:"other,omitempty"` // schemes enabled on a second builder of the same process while the first server is serving (it is never built or started)
 }
 
 type c03bCall struct {
@@ -93,6 +94,30 @@ func runC03Builder(c *c03bCase) *c03bObs {
 	done := make(chan error, 1)
 	go func() { done <- server.ListenAndServe() }()
 	synctest.Wait()
+	if len(c.Other) > 0 {
+		// another server of the same process is being configured meanwhile: that is nothing to this one
+		deny := func(context.Context, lime.Identity, string) (*lime.AuthenticationResult, error) {
+			return lime.UnknownAuthenticationResult(), nil
+		}
+		b2 := lime.NewServerBuilder().Name("other").Domain("other.example")
+		for _, s := range c.Other {
+			switch s {
+			case "guest":
+				b2 = b2.EnableGuestAuthentication()
+			case "transport":
+				b2 = b2.EnableTransportAuthentication()
+			case "plain":
+				b2 = b2.EnablePlainAuthentication(deny)
+			case "key":
+				b2 = b2.EnableKeyAuthentication(deny)
+			case "external":
+				b2 = b2.EnableExternalAuthentication(func(context.Context, lime.Identity, string, string) (*lime.AuthenticationResult, error) {
+					return lime.UnknownAuthenticationResult(), nil
+				})
+			}
+		}
+		_ = b2
+	}
 	ct, err := lime.DialInProcess(addr, 8)
 	if err != nil {
 		obs.Note = "harness: dial: " + err.Error()
@@ -163,6 +188,9 @@ func runC03Builder(c *c03bCase) *c03bObs {
 
 func judgeC03Builder(c *c03bCase, obs *c03bObs, o *Outcome) {
 	o.Class("builder-entry-point")
+	if len(c.Other) > 0 {
+		o.Class("second-builder-configured-meanwhile")
+	}
 	if strings.HasPrefix(obs.Note, "harness:") {
 		o.Fail("C03/harness/builder", "%s", obs.Note)
 		return
@@ -242,6 +270,13 @@ func TestC03Builder(t *testing.T) {
 		for _, s := range all {
 			if rapid.Bool().Draw(rt, "enable-"+s) {
 				c.Enabled = append(c.Enabled, s)
+			}
+		}
+		if rapid.IntRange(0, 2).Draw(rt, "second") == 0 {
+			for _, s := range all {
+				if rapid.Bool().Draw(rt, "other-"+s) {
+					c.Other = append(c.Other, s)
+				}
 			}
 		}
 		n := rapid.IntRange(1, 3).Draw(rt, "steps")
